@@ -149,7 +149,12 @@ func newNotificationsTracker(namespace string, shard int64, lastOffset int64, kv
 }
 
 func (nt *notificationsTracker) UpdatedCommitOffset(offset int64) {
+	// The waiters check the offset and enter the wait while holding the lock: publishing the new
+	// offset under the same lock guarantees that a waiter that has seen the old value is already
+	// listening when the broadcast comes (otherwise the wake-up is lost until the next write)
+	nt.Lock()
 	nt.lastOffset.Store(offset)
+	nt.Unlock()
 	nt.cond.Broadcast()
 }
 
